@@ -27,6 +27,9 @@ OBLIGATIONS = [
     "VgiVerif.C09.C09",
     "VgiVerif.C09.C09_error",
     "VgiVerif.C09.C09_nover",
+    "VgiVerif.C09.C09_sites_agree",
+    "VgiVerif.C09.C09_server_patch_irrelevant",
+    "VgiVerif.C09.C09_canon_unique",
 ]
 TRUSTED = [
     "CPython re / str.decode / int() as mirrored by the regex kit (validated differentially on every run)",
